@@ -2,6 +2,7 @@
 // Workload shared by the execution-based checks (C01, C03, C06, C07): catalogue slice/full + random programs.
 const cat = require('./gen_catalog')
 const { genProgram } = require('./gen_random')
+const zoo = require('./gen_zoo')
 const { Rng, chunk } = require('./util')
 const { SETS, NAMES } = require('./cfgset')
 
@@ -29,6 +30,7 @@ function plan (ctx, o) {
   if (o.includeKnown !== false) for (const [pl, fm] of cat.knownPairs()) items.push({ p: pl.id, f: fm.id, variant: 'sloppy', cfg: fm.cfg || 'FULL', known: true })
   const per = o.catalogPerShard || 120
   for (const c of chunk(rng.shuffle(items), per)) shards.push({ kind: 'catalog', items: c })
+  if (o.zoo !== false) shards.push({ kind: 'zoo' })
   const nRandom = ctx.tier === 'thorough' ? (o.thoroughRandom || 20000) : (o.quickRandom || 600)
   const perR = o.randomPerShard || 100
   for (let k = 0; k < Math.ceil(nRandom / perR); k++) shards.push({ kind: 'random', count: Math.min(perR, nRandom - k * perR), stream: k, cfgNames })
@@ -46,6 +48,14 @@ function jobs (spec, ctx) {
       prog.meta.sigBase = `catalog:${it.p}:${it.f}`
       out.push({ code: prog.code, file: FILES[out.length % FILES.length], meta: prog.meta, config: SETS[it.cfg], cfgKey: it.cfg, cfgName: it.cfg })
     }
+  } else if (spec.kind === 'zoo') {
+    // unusual-but-valid syntax next to instrumented operations, under three configurations
+    zoo.ZOO.forEach((entry, i) => {
+      for (const cfgName of ['FULL', 'COMMENTS', 'RENAMED']) {
+        const prog = zoo.build(entry)
+        out.push({ code: prog.code, file: FILES[i % FILES.length], meta: prog.meta, config: SETS[cfgName], cfgKey: cfgName, cfgName })
+      }
+    })
   } else if (spec.kind === 'random') {
     const rng = new Rng(ctx.seed, 'random', ctx.id, spec.stream)
     for (let i = 0; i < spec.count; i++) {
